@@ -5,7 +5,14 @@ from harness.scen import call, LOOK_TO, GO
 class C17(scen.WorldProp):
     id = "C17"
     lean_module = "Wheatley.Props.C17"
-    theorems = []
+    theorems = ["Wheatley.C17.gate_iff",
+                "Wheatley.C17.look_to_refused",
+                "Wheatley.C17.look_to_accepted",
+                "Wheatley.C17.covers_in_order",
+                "Wheatley.C17.padded_row",
+                "Wheatley.C17.size_change_recomputes",
+                "Wheatley.C17.size_message",
+                "Wheatley.C17.default_opening"]
     level_text = ("theorems: Look To starts ringing iff the opening row has exactly the tower's length and the "
                   "generator that will be rung has a stage in 1..N; a generated row shorter than the opening row is "
                   "padded with the opening row's tail; a size change recomputes opening row and rounds from the new "
